@@ -539,6 +539,10 @@ impl KrpcSocket {
         self.inflight_requests.next_tid = tid;
     }
 
+    pub fn verif_shrink_inflight_table(&mut self) {
+        self.inflight_requests.requests.shrink_to_fit();
+    }
+
     pub fn verif_snapshot(&self) -> crate::verif::SocketSnapshot {
         let timeout = self.inflight_requests.request_timeout();
 
